@@ -30,8 +30,14 @@ def run(tier):
         c2 = constants("quick"); c2.update({"ParenLean": False, "MaxDepth": 1, "MaxD": 3})
         runs.append(("c01_parenfull1", c2))
     exhaustive = True
+    sims = {}
+    if tier == "thorough":
+        # deep random programs on larger roots (TLC -simulate, seeded by VERIF_SEED): beyond the exhaustive bound
+        c4 = constants("quick"); c4.update({"MaxD": 4, "MaxExt": 5, "MaxDepth": 8, "ParenLean": True})
+        runs.append(("c01_deep_random", c4))
+        sims["c01_deep_random"] = {"simulate": 4000, "depth": 9}
     for name, c in runs:
-        res = views.generate(name, c, rep)
+        res = views.generate(name, c, rep, **sims.get(name, {}))
         if res.violated:
             # design-level counterexample: the code-shaped model or the requirement is wrong
             rep.violation({"kind": "design", "invariant": res.violated}, {"tlc": res.error_text})
